@@ -5,6 +5,7 @@ package world
 import (
 	"bytes"
 	"math/big"
+	"reflect"
 	"sort"
 	"strconv"
 	"strings"
@@ -26,6 +27,8 @@ type shard struct {
 	notifier  *epochNotifier
 	factory   gasFactory
 	container vmcommon.BuiltInFunctionContainer
+	// scratch builds ANOTHER factory with this shard's construction-time configuration (own notifier, own accounts)
+	scratch func() (gasFactory, error)
 }
 
 // World is the whole multi-shard world plus the protocol session state (fault, trace, last call).
@@ -297,6 +300,22 @@ func (w *World) newShard(id uint32, nshards int, nameChange bool, activationEpoc
 		return nil, err
 	}
 	sh.factory = f
+	sh.scratch = func() (gasFactory, error) {
+		d2 := make(map[string]struct{}, len(dns))
+		for k := range dns {
+			d2[k] = struct{}{}
+		}
+		return builtInFunctions.NewBuiltInFunctionsFactory(builtInFunctions.ArgsCreateBuiltInFunctionContainer{
+			GasMap:                              copyGasmap(gas),
+			MapDNSAddresses:                     d2,
+			EnableUserNameChange:                nameChange,
+			Marshalizer:                         &tracedMarshalizer{tr: newTracer()},
+			Accounts:                            newAdapter(newTracer()),
+			ShardCoordinator:                    &coordinator{self: id, nshards: nshards},
+			EpochNotifier:                       &epochNotifier{},
+			ESDTNFTImprovementV1ActivationEpoch: activationEpoch,
+		})
+	}
 	sh.container, err = f.CreateBuiltInFunctionContainer()
 	if err != nil {
 		return nil, err
@@ -472,6 +491,9 @@ func (w *World) opActive(a []string) string {
 }
 
 func (w *World) opRegistry(a []string) string {
+	if len(a) == 2 && a[1] == "second" {
+		return w.opRegistrySecond(a[0])
+	}
 	if len(a) != 1 {
 		return obsBadOp
 	}
@@ -486,6 +508,48 @@ func (w *World) opRegistry(a []string) string {
 	}
 	sort.Strings(names)
 	return "registry " + strings.Join(names, ",")
+}
+
+// opRegistrySecond: `registry <shard> second` - every container a factory builds is the complete, correctly bound
+// registry, whatever was done to the containers it built before.  A scratch factory with the shard's configuration builds
+// a first container; the holder of that one removes a function and replaces another (both are part of the container's
+// interface); then the factory builds a second container, which is observed: its sorted key set, and how many of its keys
+// are bound to an object of the same type as in the shard's live container.
+func (w *World) opRegistrySecond(tok string) string {
+	sh, ok := w.shardArg(tok)
+	if !ok {
+		return obsBadOp
+	}
+	f, err := sh.scratch()
+	if err != nil {
+		return "registry err"
+	}
+	c1, err := f.CreateBuiltInFunctionContainer()
+	if err != nil {
+		return "registry err"
+	}
+	if other, err := c1.Get("ClaimDeveloperRewards"); err == nil {
+		_ = c1.Replace("ESDTTransfer", other)
+	}
+	c1.Remove("ESDTNFTCreate")
+	c1.Remove("SaveKeyValue")
+	c2, err := f.CreateBuiltInFunctionContainer()
+	if err != nil {
+		return "registry err"
+	}
+	keys := c2.Keys()
+	names := make([]string, 0, len(keys))
+	bound := 0
+	for k := range keys {
+		names = append(names, k)
+		x, err1 := c2.Get(k)
+		y, err2 := sh.container.Get(k)
+		if err1 == nil && err2 == nil && reflect.TypeOf(x) == reflect.TypeOf(y) {
+			bound++
+		}
+	}
+	sort.Strings(names)
+	return "registry " + strings.Join(names, ",") + " bound=" + strconv.Itoa(bound)
 }
 
 func (w *World) opFault(a []string) string {
